@@ -145,22 +145,31 @@ def run(prog, tier, res):
     psy = Sym(prog, pan, slice_param=99)
     res.functions.add(PCRC)
     takes = [(bb, t) for bb, t in pb.calls() if short(cname(t)) == "Iterator::take"]
+    resizes = [(bb, t) for bb, t in pb.calls() if short(cname(t)) == "Vec::<T, A>::resize"]
     # the number of zero bytes appended, as a function of the payload length: evaluated for every length 0..256 from
-    # the guard atoms and value polynomial of each path (the decoder's padding is (4 - len % 4) % 4)
+    # the guard atoms and value polynomial of each path (the decoder's padding is (4 - len % 4) % 4).  The zeros are
+    # appended by `take(padding)` of repeated zeros, or by `resize(len + padding, 0)` of a buffer that holds the payload.
     from ..finite import eval_poly
     from ..funeval import holds
+    from ..sym import Poly as _Poly
     LEN = "len(arg1.%d)" % field_index(prog, "alpha_g_detector::padwing::Chunk", "payload")
     pad_bad = []
     per_path = []
-    for bb, t in takes:
-        for path in forward_paths(pan, bb) or []:
+    pad_sites = [(bb, t, 1, False) for bb, t in takes] + [(bb, t, 1, True) for bb, t in resizes]
+    for bb, t, ai, is_resize in pad_sites:
+        for path in forward_paths(pan, bb) or [([], [0])]:
             ats = path_atoms(psy, path)
             psy.set_path(path[1])
-            v = psy.poly(pan.terms.operand(t["args"][1]))
+            v = psy.poly(pan.terms.operand(t["args"][ai]))
+            fill = strip(pan.terms.operand(t["args"][2])) if is_resize else ("const", 0)
             psy.set_path(None)
+            if is_resize and v is not None:
+                v = v - _Poly.sym(LEN)          # new length minus the payload already in the buffer (checked below)
+            if not (fill[0] == "const" and fill[1] == 0):
+                v = None
             per_path.append((ats, v))
-    if len(takes) != 1 or not per_path or any(v is None for _, v in per_path):
-        pad_bad.append("no single `take(padding)` of repeated zeros with an integer count")
+    if len(pad_sites) != 1 or not per_path or any(v is None for _, v in per_path):
+        pad_bad.append("no single `take(padding)` of repeated zeros / `resize(len + padding, 0)` with an integer count")
     else:
         for n in range(0, 257):
             env = {LEN: n}
@@ -184,17 +193,12 @@ def run(prog, tier, res):
         res.violate(R4, PCRC, "padding", "payload_crc32c(): %s" % pad_bad[0], pb.where())
     prets = [field_names_subst(prog, psy.name(t)) for _, t in pan.ret_assignments()]
     pw_ok = len(prets) == 1 and prets[0].startswith("not(crc32c::crc32c(Iterator::collect(Iterator::chain(arg1.payload,Iterator::take(iter::repeat(0),")
-    if not pw_ok and len(prets) == 1 and prets[0] == "not(crc32c::crc32c(mut(arg1.payload)))":
-        # `let mut v = self.payload.clone(); v.extend(repeat(0).take(padding));`: the copy is modified by exactly one
-        # call, which appends the zero padding
-        muts = []
-        for bb_, t_ in pb.calls():
-            a0 = t_["args"][0] if t_["args"] else None
-            if a0 is not None and a0.get("k") in ("move", "copy") and not a0["p"]["pr"]:
-                lty = pb.locals[a0["p"]["l"]]["ty"]
-                if lty.get("k") == "ref" and lty.get("m") and "Vec<u8>" in psy.short_ty(lty):
-                    muts.append((short(cname(t_)), psy.name(pan.terms.operand(t_["args"][1])) if len(t_["args"]) > 1 else ""))
-        pw_ok = len(muts) == 1 and muts[0][0] in ("Extend::extend", "Vec::<T, A>::extend") and muts[0][1].startswith("Iterator::take(iter::repeat(0),")
+    if not pw_ok and len(prets) == 1:
+        # a buffer filled in place: the hashed value is one local Vec<u8>, and the calls that take it mutably are, in
+        # dominance order, [payload copy] then [zero padding]:
+        #   init = payload.clone()                      + extend(repeat(0).take(p))
+        #   init = Vec::new() / with_capacity(..)       + extend_from_slice(payload) / extend(payload)  + extend(take) / resize
+        pw_ok = buffer_writer_ok(prog, pb, pan, psy)
     if pw_ok:
         res.hit(R4)
     else:
@@ -210,6 +214,62 @@ def run(prog, tier, res):
     else:
         res.violate(R5, AFN, "range", "chip-id conversion accepts %s, the property says chips 0..=3" % ranges_of(allowed), prog.bodies[AFN].where())
     res.undecided = ["CRC-32C detecting all 1-3 bit errors and bursts <= 32 is a property of the polynomial (trusted)"]
+
+
+def buffer_writer_ok(prog, pb, pan, psy):
+    rets = [strip(t) for _, t in pan.ret_assignments()]
+    if not (len(rets) == 1 and rets[0][0] == "un" and rets[0][1] == "Not"):
+        return False
+    c_ = strip(rets[0][2])
+    if not (c_[0] == "call" and c_[1].endswith("crc32c::crc32c") and len(c_[2]) == 1):
+        return False
+    crc_bb = c_[3] if isinstance(c_[3], int) else None
+    buf = c_[2][0]
+    while True:
+        if buf[0] in ("ref", "deref"):
+            buf = buf[1]
+        elif buf[0] == "call" and short(buf[1]) in ("Deref::deref", "Vec::<T, A>::as_slice", "AsRef::as_ref") and len(buf[2]) == 1:
+            buf = buf[2][0]
+        elif buf[0] == "call" and short(buf[1]) == "Index::index" and len(buf[2]) == 2 and strip(buf[2][1])[0] == "aggr" and strip(buf[2][1])[1].endswith("RangeFull::RangeFull"):
+            buf = buf[2][0]
+        else:
+            break
+    if buf[0] != "mut":
+        return False
+    l, init = buf[1], strip(buf[2])
+    init_nm = field_names_subst(prog, psy.name(init))
+    muts = []
+    for bb_, t_ in pb.calls():
+        if not t_["args"]:
+            continue
+        a0 = pan.terms.operand(t_["args"][0])
+        x = a0
+        while x[0] in ("ref", "deref"):
+            x = x[1]
+        if x[0] == "mut" and x[1] == l and a0[0] == "ref":
+            s_ = short(cname(t_))
+            if s_ in ("Deref::deref", "Vec::<T, A>::as_slice", "Vec::<T, A>::len", "crc32c::crc32c", "Index::index"):
+                continue
+            muts.append((bb_, s_, [field_names_subst(prog, psy.name(pan.terms.operand(a))) for a in t_["args"][1:]]))
+    # a total order by dominance, all before the hash
+    for i in range(len(muts) - 1):
+        if not pb.dominates(muts[i][0], muts[i + 1][0]):
+            return False
+    if crc_bb is not None and muts and not pb.dominates(muts[-1][0], crc_bb):
+        return False
+
+    def is_payload_copy(m):
+        return (m[1] in ("Vec::<T, A>::extend_from_slice",) and m[2] == ["arg1.payload"]) or \
+               (m[1] in ("Extend::extend", "Vec::<T, A>::extend") and m[2] and m[2][0] in ("arg1.payload", "<impl [T]>::iter(arg1.payload)"))
+
+    def is_zero_pad(m):
+        return (m[1] in ("Extend::extend", "Vec::<T, A>::extend") and m[2] and m[2][0].startswith("Iterator::take(iter::repeat(0),")) or \
+               (m[1] == "Vec::<T, A>::resize" and len(m[2]) == 2 and m[2][1] == "0")
+    if init_nm == "arg1.payload":
+        return len(muts) == 1 and is_zero_pad(muts[0])
+    if init[0] == "call" and short(init[1]) in ("Vec::<T>::new", "Vec::<T>::with_capacity"):
+        return len(muts) == 2 and is_payload_copy(muts[0]) and is_zero_pad(muts[1])
+    return False
 
 
 def tiles(segs, start, end):
